@@ -65,7 +65,10 @@ func loadEvents(filename string) (map[string]*eventsListType, error) {
 	minCreateTime := uint64(time.Now().Add(-durationMonth).Unix())
 	for username, eventsSlice := range events {
 		eventsList := &eventsListType{}
-		for _, savedEvent := range eventsSlice {
+		// The slice was saved newest first: link the events starting with the
+		// oldest so that the list is rebuilt in the saved order.
+		for index := len(eventsSlice) - 1; index >= 0; index-- {
+			savedEvent := eventsSlice[index]
 			if savedEvent.CreateTime < minCreateTime {
 				continue
 			}
